@@ -37,6 +37,7 @@ def run(tier):
                                "subs": polar_subs(c)}})
     outs = run_tasks(tasks, timeout=60 if quick else 200, progress=50) if lean_ok else []
     reqs, meta = [], []
+    vreqs, vmeta, seen_prog = [], [], set()
     for c, out in zip(cases, outs):
         chk.evaluations += 1
         if out["status"] == "timeout":
@@ -101,6 +102,28 @@ def run(tier):
             reqs.append({"op": "moments", "program": res["program"], "sigma0": s0, "monos": monos,
                          "nmax": nmax, "budget": 3000})
             meta.append((c, sysm, res))
+            # V2: every equation as a one-step identity on ALL states of the inferred types
+            # (theorems Polar.VP.checkOneStep_sound / recurrence_holds_forall_n)
+            vtypes, okt = {}, True
+            for v, vals in res["typedefs"].items():
+                try:
+                    vtypes[v] = [H.fr_str(Fr(x)) for x in vals]
+                except Exception:
+                    okt = False
+            if okt:
+                prog = json.loads(json.dumps(res["program"]))
+                base = lean_sigma0(c)
+                for pz in [z for z in res.get("symbols", []) if z in base]:
+                    prog["init"].insert(0, ["assign", pz, ["expr", ["num", base[pz]]], ["tt"], pz])
+                    vtypes[pz] = [base[pz]]
+                if id(res) not in seen_prog:
+                    seen_prog.add(id(res))
+                    vreqs.append({"op": "types_inductive", "program": prog, "types": vtypes, "cap": 4096})
+                    vmeta.append((c, sysm, None))
+                for r in rows:
+                    vreqs.append({"op": "onestep_check", "program": prog, "types": vtypes, "mono": r["mono"],
+                                  "terms": [[t[0], t[1]] for t in r["terms"]], "cap": 4096})
+                    vmeta.append((c, sysm, r))
     answers = model_batch_parallel(reqs) if reqs else []
     ok_sys = 0
     for (c, sysm, res), ans in zip(meta, answers):
@@ -143,6 +166,35 @@ def run(tier):
             chk.sample({"text": c["text_used"], "goal": sysm["goal"],
                         "equations": [{"mono": r["mono"], "terms": [[t[0], t[1]] for t in r["terms"]], "init": r["init"]}
                                       for r in rows[:4]]}, limit=3)
+    vans = model_batch_parallel(vreqs, timeout=60) if vreqs else []
+    n_rows_all_n = 0
+    for (c, sysm, r), a in zip(vmeta, vans):
+        if not a.get("ok"):
+            chk.count("V:error:" + str(a.get("error"))[:30])
+            continue
+        if r is None:
+            chk.count("V1:" + ("inductive" if a.get("inductive") else ("refused" if a.get("inductive") is None else "NOT-inductive")))
+            continue
+        if a.get("holds") is None:
+            chk.count("V2:refused:" + str(a.get("refused"))[:40])
+            continue
+        if a["holds"]:
+            n_rows_all_n += 1
+            chk.count("V2:equation-holds-on-all-typed-states")
+            continue
+        ce = a.get("counterexample")
+        rec = {"case": c, "row": r, "kind": "one-step-on-typed-state", "counterexample": ce, "goal": sysm["goal"]}
+        fid = attribute(PROP, rec)
+        if fid:
+            chk.known(fid[0], fid[1])
+        else:
+            chk.violation(f"the recurrence of E({r['mono']}) is not a one-step identity on the typed state {ce.get('assign') if ce else None}",
+                          {"case": pipeline.case_to_json(c), "text": c["text_used"], "goal": sysm["goal"], "row": r,
+                           "counterexample": ce,
+                           "how": "polar-model op onestep_check on the normalised program, program.typedefs and the equation; lhs = exact "
+                                  "one-iteration expectation as a polynomial in the untyped variables, rhs = the recurrence"})
+    chk.obligation("validator:V2-equations-hold-on-all-typed-states", lean_ok and (n_rows_all_n > 0 or not vreqs),
+                   {"equations_valid_for_all_typed_states": n_rows_all_n})
     chk.obligation("correspondence:one-step-identities-and-closure", lean_ok and ok_sys > 0 and
                    chk.counts.get("harness-error", 0) == 0, {"systems_ok": ok_sys})
     chk.assumptions = [f"identities checked along the exact run for n = 0..{nmax - 1} at one rational parameter point"]
